@@ -138,6 +138,19 @@ func c05Build() {
 		{"[func f(n) [n].multiUse({a:l->l.map(p->f(p+1)).sum()}); f(x)][0]", "runaway-recursion-through-multiUse"},
 		{"[func f(n) [n].merge([1],(p,q)->f(n+1)).size(); f(x)][0]", "runaway-recursion-through-merge"},
 		{"[func f(n) [n].reduce((p,q)->p)+[n,n].reduce((p,q)->f(n+1)); f(x)][0]", "runaway-recursion-through-reduce"},
+		// recursion through every way a lazy list is turned into text or compared
+		{"[func f(n) sprintf(\"%v\",[n].map(p->f(p+1))).len(); f(x)][0]", "runaway-recursion-through-sprintf"},
+		{"[func f(n) sprintf(\"%v\",{k:[n].map(p->f(p+1))}).len(); f(x)][0]", "runaway-recursion-through-sprintf-map"},
+		{"[func f(n) sprintf([n].map(p->f(p+1))).len(); f(x)][0]", "runaway-recursion-through-sprintf-1"},
+		{"[func f(n) string([n].map(p->f(p+1))).len(); f(x)][0]", "runaway-recursion-through-string"},
+		{"[func f(n) (\"a\"+[n].map(p->f(p+1))).len(); f(x)][0]", "runaway-recursion-through-concat"},
+		{"[func f(n) {k:[n].map(p->f(p+1))}.string().len(); f(x)][0]", "runaway-recursion-through-map-string"},
+		{"[func f(n) if [n].map(p->f(p+1))=[1] then 1 else 2; f(x)][0]", "runaway-recursion-through-equal"},
+		{"[func f(n) if 1~[n].map(p->f(p+1)) then 1 else 2; f(x)][0]", "runaway-recursion-through-member"},
+		{"[func f(n) [n].map(p->f(p+1)).eval().size(); f(x)][0]", "runaway-recursion-through-eval"},
+		{"[func f(n) [n].map(p->f(p+1)).order().size(); f(x)][0]", "runaway-recursion-through-order"},
+		{"[func f(n) [n].map(p->f(p+1)).groupByInt(q->q).size(); f(x)][0]", "runaway-recursion-through-group"},
+		{"[func f(n) {k:n}.map((k,v)->f(v+1)).k; f(x)][0]", "runaway-recursion-through-map-map"},
 	}
 	for _, f := range faults {
 		F := func(arg string) string { return "(" + strings.ReplaceAll(f[0], "x", arg) + ")" }
@@ -199,7 +212,7 @@ func (c05) Plan(tier string) wk.Plan {
 	}
 	return wk.Plan{
 		Level: "fault_enumeration", Cases: int64(len(c05cases)), Chunk: 100, Configs: cfgs, CaseBudget: 30, PerCase: true, HangIsViolation: true,
-		Rule:          "enumeration, not sampling: (A) every binary operator x every ordered pair of a 24-value boundary pool (ints incl. 0, -1, 64, min/max int; floats incl. 0, Inf, NaN; strings; bool; empty/mixed/lazy lists; maps; closures of arity 1-3, failing, panicking, wrong result type), both unary operators, index/member/call/if/switch on every pool value; (B) every method and function listed by GetDocumentation() at run time x argument tuples (arity <= 1 exhaustive over the pool, arity >= 2 all pairs of a 14-value sub-pool, plus no and too many arguments) x receivers per type; (C) 29 fault sources (modulo 0, negative shift, incomparable =,<,~,switch, index range, missing key, failing and panicking host function, throw, type error, wrong arity, random(0), combineN(0), iirApply without filter, empty reductions, callback of wrong type, runaway recursion plain and through map/accept/index/multiUse/merge/reduce) x 14 sequential contexts (top level, closures, map-field closure, sequential map/accept, reduce callback, upstream of a map, merge operand and less function, multiUse consumer and source, cross, string concatenation) + 6 forced-parallel contexts (fault at element >= 20 of a map/accept whose closure sleeps 300us: on a worker, downstream on the collector, upstream, nested, merge of parallel stages), each plain (Eval must return an error), inside try/catch (catch value must be returned) and inside try within a stage closure. Sections A and B run on one CPU; section C under every launch configuration (CPU masks x GOMAXPROCS). Refuting events: worker process dies, panic reaches the caller of Eval, no error for a fault, catch value not delivered, watchdog. Non-trivial = case whose program was executed (Generate succeeded); distinct by (configuration, program).",
+		Rule:          "enumeration, not sampling: (A) every binary operator x every ordered pair of a 24-value boundary pool (ints incl. 0, -1, 64, min/max int; floats incl. 0, Inf, NaN; strings; bool; empty/mixed/lazy lists; maps; closures of arity 1-3, failing, panicking, wrong result type), both unary operators, index/member/call/if/switch on every pool value; (B) every method and function listed by GetDocumentation() at run time x argument tuples (arity <= 1 exhaustive over the pool, arity >= 2 all pairs of a 14-value sub-pool, plus no and too many arguments) x receivers per type; (C) 41 fault sources (modulo 0, negative shift, incomparable =,<,~,switch, index range, missing key, failing and panicking host function, throw, type error, wrong arity, random(0), combineN(0), iirApply without filter, empty reductions, callback of wrong type, runaway recursion plain and through map/accept/index/multiUse/merge/reduce/sprintf/string/concatenation/map string/=/~/eval/order/group/map.map) x 14 sequential contexts (top level, closures, map-field closure, sequential map/accept, reduce callback, upstream of a map, merge operand and less function, multiUse consumer and source, cross, string concatenation) + 6 forced-parallel contexts (fault at element >= 20 of a map/accept whose closure sleeps 300us: on a worker, downstream on the collector, upstream, nested, merge of parallel stages), each plain (Eval must return an error), inside try/catch (catch value must be returned) and inside try within a stage closure. Sections A and B run on one CPU; section C under every launch configuration (CPU masks x GOMAXPROCS). Refuting events: worker process dies, panic reaches the caller of Eval, no error for a fault, catch value not delivered, watchdog. Non-trivial = case whose program was executed (Generate succeeded); distinct by (configuration, program).",
 		Floor:         3000,
 		FloorCounters: map[string]int64{"faults_on_other_goroutine": 20},
 		Assumptions:   []string{"a lazy list returned to the host and forced there is outside the evaluation call; programs force their results inside (size/sum/string)", "parallel contexts rely on the dependency's timing switch (>200us per element, NumCPU>1); the evidence counts on how many goroutines faults were actually observed"},
